@@ -596,6 +596,10 @@ VARIANTS += [
 ]
 # ---- fourth round: rules derived from the mutation sweep and the fourth batch of seeded changes
 VARIANTS += [
+    M("lca-index-on-nodes", TREES, "                self.traversal_index[node] = i\n", "                self.traversal_index[node] = i\n                node.add_feature(\"tour_index\", i)\n", "PRIVATE-INDEX"),
+    M("triples-two-passes", TREES, "    for tree in trees:\n        tree_leaves, tree_triples = tree_to_triples(tree)\n        leaves.update(tree_leaves)\n        triples.update(tree_triples)\n",
+      "    for tree in trees:\n        leaves.update(tree_to_triples(tree)[0])\n\n    for tree in trees:\n        triples.update(tree_to_triples(tree)[1])\n", "ITERABLE-ONCE", "LEAVES-SOURCE"),
+    T("twin-triples-materialised", TREES, "    leaves = set()\n    triples = set()\n\n    for tree in trees:", "    trees = list(trees)\n    leaves = set()\n    triples = set()\n\n    for tree in trees:"),
     M("spfs-candidate-loop-break", SPFS, "                if conserv_segments < 0:\n                    # Not a subsequence of the parent synteny\n                    continue\n",
       "                if conserv_segments < 0:\n                    # Not a subsequence of the parent synteny\n                    break\n", "ENUM-NO-TRUNCATION"),
     M("thl-skip-dup-when-speciation-found", REC, "                _compute_thl_try_duplication_transfer(\n                    rec_input.species_lca,",
@@ -898,7 +902,7 @@ CANARY_RULES = (
     "KEY-GUARD", "HASH-IDENTITY", "COST-GUARD", "COPY-FAITHFUL", "NAME-AS-KEY", "ENUM-NO-TRUNCATION", "SET-ALGEBRA-ARGS",
     "LEAF-MAP-DOMAIN", "WIDTH-VERBATIM", "TOPO-VERDICT", "ROOT-ORDER-SOURCE",
     "CANDIDATE-GUARDS", "TREE-ITER-EXPLICIT", "STALE-INPUT", "HASH-CANONICAL", "NODE-OPAQUE", "UPDATE-ALL-CANDIDATES",
-    "COST-NO-ROUNDING", "MASK-RANGE", "GAIN-AT-LCA",
+    "COST-NO-ROUNDING", "MASK-RANGE", "GAIN-AT-LCA", "PRIVATE-INDEX", "ITERABLE-ONCE",
 )
 
 MEMO_CANARY = Variant(
